@@ -121,6 +121,11 @@ func SchCorpus() []SchCorpusCase {
 	add(sj(), 'r', Str("q:Aa"), "stringjoin with enum member name")
 	add(sp(), 'r', Str("zz"), "stringprefix unknown prefix")
 	add(kd(), 'r', Bool(true), "kinded union without member for kind")
+	sp1 := func() *SchTy { return SchUnion('p', SchM("a", 's', SchScalar('S')), SchM("b", 's', SchScalar('S'))) }
+	add(sp1(), 'r', Str("axyz"), "stringprefix with one-character prefixes")
+	add(sp1(), 'r', Str("a"), "stringprefix with one-character prefix and empty rest")
+	add(sp(), 'r', Str("s-abc"), "stringprefix ok")
+	add(SchUnion('k', SchM("a", 'm', SchScalar('A')), SchM("l", 'm', SchScalar('K'))), 't', M(E("", Str("x"))), "union with an Any member")
 	return out
 }
 
